@@ -19,24 +19,25 @@ def main():
         args = [a for a in args if a != tier]
     d = os.path.abspath(args[0])
     checks = args[1:]
-    st = sh("git -C /repo status --porcelain").stdout.strip()
-    if st:
-        print("refusing: /repo has uncommitted changes:\n" + st)
-        return 2
-    r = sh("git -C /repo apply --check %s/patch.diff" % d)
+    repo = "/tmp/seedrun/repo_%d" % os.getpid()
+    os.makedirs("/tmp/seedrun", exist_ok=True)
+    sh("git -C /repo worktree add --detach %s HEAD" % repo)
+    env = "SELFIES_REPO=%s VERIF_EVIDENCE_DIR=/tmp/seedrun/ev_%d" % (repo, os.getpid())
+    r = sh("git -C %s apply --check %s/patch.diff" % (repo, d))
     if r.returncode != 0:
         print("patch does not apply:\n" + r.stdout)
+        sh("git -C /repo worktree remove --force %s" % repo)
         return 2
     results = {}
     try:
-        sh("git -C /repo apply %s/patch.diff" % d)
+        sh("git -C %s apply %s/patch.diff" % (repo, d))
         if os.path.exists(os.path.join(d, "demo.py")):
-            r = sh("/venv/bin/python %s/demo.py /repo" % d, timeout=600)
+            r = sh("/venv/bin/python %s/demo.py %s" % (d, repo), timeout=600)
             results["demo_on_patched"] = r.returncode
             print("demo on patched tree: exit %d (%s)" % (r.returncode, r.stdout.strip().split("\n")[-1][:150]))
         for c in checks:
             t0 = time.time()
-            r = sh("cd /verif && ./check %s --tier %s" % (c, tier), timeout=7200)
+            r = sh("cd /verif && %s ./check %s --tier %s" % (env, c, tier), timeout=7200)
             viol = [l for l in r.stdout.split("\n") if l.startswith("VIOLATION")]
             results[c] = {"exit": r.returncode, "violations": len(viol), "wall": round(time.time() - t0)}
             print("check %s: exit %d, %d VIOLATION lines, %.0fs" % (c, r.returncode, len(viol), time.time() - t0))
@@ -47,7 +48,8 @@ def main():
             if r.returncode == 2:
                 print(r.stdout[-1500:])
     finally:
-        sh("git -C /repo checkout -- .")
+        sh("git -C /repo worktree remove --force %s" % repo)
+        sh("rm -rf /tmp/seedrun/ev_%d" % os.getpid())
     if os.path.exists(os.path.join(d, "demo.py")):
         r = sh("/venv/bin/python %s/demo.py /repo" % d, timeout=600)
         results["demo_on_clean"] = r.returncode
